@@ -34,6 +34,32 @@ type TypedValue interface {
 	ValueTypeName() string
 }
 
+// CopyableValue is implemented by composite value types that are changed in place through the pointer the
+// store holds (set, sorted set): a copy of the state must not share them with the store.
+type CopyableValue interface {
+	CopyValue() interface{}
+}
+
+// CopyValue returns a value that shares no mutable structure with v.
+func CopyValue(v interface{}) interface{} {
+	switch x := v.(type) {
+	case []string:
+		if x == nil {
+			return x
+		}
+		return append(make([]string, 0, len(x)), x...)
+	case map[string]interface{}:
+		m := make(map[string]interface{}, len(x))
+		for f, fv := range x {
+			m[f] = fv
+		}
+		return m
+	case CopyableValue:
+		return x.CopyValue()
+	}
+	return v
+}
+
 var valueDecoders = map[string]func(raw []byte) (interface{}, error){}
 
 // RegisterValueType registers the decoder of a composite value type. It is called from the type's package init.
